@@ -91,6 +91,13 @@ def _to_nnx(nn, nnx, bridge, jnp, jax, fails):
   def held(mod):
     from flax.nnx.bridge import variables as bv
     return nn.meta.unbox({k: v for k, v in bv.nnx_attrs_to_linen_vars({k: v for k, v in vars(mod).items() if k not in ('module', 'rngs', '_object__state')}).items() if k != 'nnx'})
+  cases += 1
+  truth = deep.init(jax.random.key(0), x)
+  got_tree = held(dm)
+  if jax.tree_util.tree_map(np.shape, dict(got_tree)) != jax.tree_util.tree_map(np.shape, nn.meta.unbox(dict(truth))):
+    fails.append(dict(inputs=dict(direction='ToNNX', module='Dense+BatchNorm two levels below the wrapped module', check='variables after lazy_init'),
+                      observed=f'the wrapper holds {jax.tree_util.tree_map(np.shape, dict(got_tree))}, linen init creates {jax.tree_util.tree_map(np.shape, nn.meta.unbox(dict(truth)))}'[:500], violated='tonnx-holds-all-variables'))
+    return cases
   for step in range(3):
     cases += 1
     inp = dict(direction='ToNNX', module='Dense+BatchNorm two levels below the wrapped module', call=step)
@@ -204,6 +211,29 @@ def _to_linen(nn, nnx, bridge, jnp, jax, fails):
       fails.append(dict(inputs=dict(direction='ToLinen', module='Param + LoRAParam + BatchStat + Ema(BatchStat)', call=step),
                         observed='output / Ema / batch_stats after the call differ from the NNX module called directly', violated='tolinen-state-roundtrip'))
       return cases
+  # a Variable whose only metadata is a per-instance hook keeps the hook through the bridge
+  class Hooked(nnx.Module):
+    def __init__(self, *, rngs):
+      self.w = nnx.Param(jnp.full((3,), 2.0), on_get_value=lambda var, v: v * 10.0)
+      self.seen = nnx.BatchStat(jnp.zeros((3,)), on_set_value=lambda var, v: jnp.clip(v, -1.0, 1.0))
+
+    def __call__(self, x):
+      self.seen.value = self.seen.value + x
+      return x * self.w.value + self.seen.value
+  hk = bridge.to_linen(Hooked)
+  hv = hk.init(jax.random.key(0), x)
+  ref_h = Hooked(rngs=nnx.Rngs(0))
+  ref_h(x)          # init called the module once
+  vs = hv
+  for step in range(3):
+    cases += 1
+    want = ref_h(x)
+    got, upd = hk.apply(vs, x, mutable=['batch_stats'])
+    vs = {**vs, **upd}
+    if not _close(want, got) or not _close(nn.meta.unbox(vs)['batch_stats']['seen'], ref_h.seen.raw_value):
+      fails.append(dict(inputs=dict(direction='ToLinen', module='Param with on_get_value / BatchStat with on_set_value hooks', call=step),
+                        observed=f'ToLinen returned {np.asarray(got)}, the NNX module (hooks applied) returns {np.asarray(want)}', violated='tolinen-output-equal'))
+      return cases
   # stateless module, no mutable: same output every time, equal to the NNX module
   lin = bridge.to_linen(nnx.Linear, 3, 2)
   vs = lin.init(jax.random.key(3), x[None])
@@ -232,7 +262,7 @@ def run(tier, seed):
       import traceback
       return dict(name=NAME, cases=cases, distinct=cases, failures=[], error=f'{part.__name__}: ' + traceback.format_exc()[-1500:])
   return dict(name=NAME, cases=cases, distinct=cases,
-              bound='ToNNX(Dense+BatchNorm+counter): 3 calls; ToNNX(BatchNorm two levels deep): 3 calls; ToLinen(NoisyScale with Param/Calls/RNG stream): 4 calls x mutable {[Calls,RngCount], True}; ToLinen(Param+LoRAParam+BatchStat+Ema subclass): layout + 3 calls; ToLinen(nnx.Linear): 2 calls; sharding metadata both ways',
+              bound='ToNNX(Dense+BatchNorm+counter): 3 calls; ToNNX(BatchNorm two levels deep): 3 calls; ToLinen(NoisyScale with Param/Calls/RNG stream): 4 calls x mutable {[Calls,RngCount], True}; ToLinen(Param+LoRAParam+BatchStat+Ema subclass): layout + 3 calls; ToLinen(Variables with per-instance hooks): 3 calls; ToLinen(nnx.Linear): 2 calls; sharding metadata both ways',
               failures=fails[:4], error=None)
 
 
